@@ -66,6 +66,23 @@ def reg_lines(rng):
             s.roots_mode = mode
             pd, reg = regsim.build(s)
             out.append((f"reg untrusted-chain roots={mode}/{fmt}", impl.verify_reg(regrun.policy_of(pd), reg.as_dict())[:60]))
+    # the same at the REAL clock with certificates valid today: nothing but the anchors in force may make such a chain acceptable
+    import time
+    now = int(time.time())
+    D = regsim.DAY
+    for fmt in regsim.X5C_FORMATS:
+        for mode in ("none", "unrelated"):
+            if fmt in ("packed", "tpm", "fido-u2f") and mode == "none":
+                continue
+            s = regsim.RScn(fmt, "ES256-P256")
+            s.pki_tag = "RT"
+            s.n_inter = 0 if fmt == "fido-u2f" else 1
+            s.roots_mode = mode
+            s.now = now
+            s.k["pki_kw"] = dict(root_nb=now - 1000 * D, root_na=now + 1000 * D, inter_nb=now - 100 * D, inter_na=now + 100 * D)
+            s.k["leaf_nb"], s.k["leaf_na"] = now - D, now + D
+            pd, reg = regsim.build(s)
+            out.append((f"reg real-clock untrusted-chain roots={mode}/{fmt}", impl.verify_reg(regrun.policy_of(pd), reg.as_dict())[:60]))
     for fmt in ("packed", "android-safetynet", "apple"):
         for name, f in regcat.CHAIN_FAULTS.items():
             s = regsim.RScn(fmt, "ES256-P256")
